@@ -92,7 +92,14 @@ def WFParam (p : Param) : Prop :=
   modBeforeStep (.id p.name) = .stop ∧ WFTArgs W p.targs ∧ p.decl.abstr = false ∧ WFDecl W p.decl ∧
   (match p.dflt with
    | none => True
-   | some e => WF W e ∧ e.lvl ≤ 14)
+   | some e => WF W e)
+
+theorem pos_paramDefault (x : XExpr) (h : needParen x.prec paramDefaultPrec paramDefaultSide = false) : x.lvl ≤ 14 := by
+  cases x with
+  | lit l => simp only [XExpr.prec, XExpr.lvl, litPrec] at h ⊢ <;> generalize litNegative l = b at h ⊢ <;> cases b <;> revert h <;> decide
+  | un o _ => cases o <;> simp only [XExpr.prec, XExpr.lvl] at h ⊢ <;> revert h <;> decide
+  | bin o _ _ => cases o <;> simp only [XExpr.prec, XExpr.lvl] at h ⊢ <;> revert h <;> decide
+  | _ => simp only [XExpr.prec, XExpr.lvl] at h ⊢ <;> revert h <;> decide
 
 def hasLtParam (p : Param) : Bool :=
   hasLtTArgs p.targs || hasLtDecl p.decl || hasLtOpt p.dflt
@@ -101,7 +108,7 @@ def hasLtParam (p : Param) : Bool :=
 def paramToks (p : Param) : List Tok :=
   p.mods.map modTok ++ (.id p.name :: (toks (fmtTArgs p.targs (startsTok (fmtDecl p.decl true) false)) ++
     (toks (fmtDecl p.decl true) ++ (toks (fmtSem p.sem) ++
-      (match p.dflt with | none => [] | some e => .p .Equals :: toks (fmtExprX e))))))
+      (match p.dflt with | none => [] | some e => .p .Equals :: toks (fmtSubX e paramDefaultPrec paramDefaultSide))))))
 
 theorem toks_fmtParam (p : Param) : toks (fmtParam p) = paramToks p := by
   unfold fmtParam paramToks
@@ -119,7 +126,7 @@ theorem param_reads (p : Param) (hw : WFParam W p) (c : Tok) (hc : c = .p .Comma
     · exact afterTy_amp
   -- the tail after the declarator
   obtain ⟨tailD, hdef⟩ : ∃ t : List Tok, t = toks (fmtSem p.sem) ++
-      ((match p.dflt with | none => [] | some e => .p .Equals :: toks (fmtExprX e)) ++ c :: rest) := ⟨_, rfl⟩
+      ((match p.dflt with | none => [] | some e => .p .Equals :: toks (fmtSubX e paramDefaultPrec paramDefaultSide)) ++ c :: rest) := ⟨_, rfl⟩
   have htoks : paramToks p ++ c :: rest = p.mods.map modTok ++ (.id p.name ::
       (toks (fmtTArgs p.targs (startsTok (fmtDecl p.decl true) false)) ++ (toks (fmtDecl p.decl true) ++ tailD))) := by
     simp [paramToks, hdef]
@@ -153,8 +160,8 @@ theorem param_reads (p : Param) (hw : WFParam W p) (c : Tok) (hc : c = .p .Comma
     rcases hc with rfl | rfl <;> (cases p; simp_all)
   | some e =>
     rw [hd] at hwe
-    have htl : tailD = toks (fmtSem p.sem) ++ .p .Equals :: (toks (fmtExprX e) ++ c :: rest) := by simp [hdef, hd]
-    obtain ⟨N3, h3⟩ := attrArg_reads W e hwe.1 hwe.2 c hc rest (fun hl =>
+    have htl : tailD = toks (fmtSem p.sem) ++ .p .Equals :: (toks (fmtSubX e paramDefaultPrec paramDefaultSide) ++ c :: rest) := by simp [hdef, hd]
+    obtain ⟨N3, h3⟩ := argPos_reads W _ _ (Or.inl (by decide)) pos_paramDefault e hwe c hc rest (fun hl =>
       tmplFree_suffix (by
         rw [htl]
         exact (List.suffix_cons _ _).trans ((List.suffix_append _ _).trans ((List.suffix_append _ _).trans
@@ -170,7 +177,7 @@ theorem param_reads (p : Param) (hw : WFParam W p) (c : Tok) (hc : c = .p .Comma
     rw [g1]
     simp only [g2]
     rw [htl, sem_reads p.sem (.p .Equals) _ (by intro h; cases h)]
-    have g3' : xparseLvl W f 15 .Sequence (toks (fmtExprX e) ++ c :: rest) = some (e, c :: rest) := g3
+    have g3' : xparseLvl W f 15 .Sequence (toks (fmtSubX e paramDefaultPrec paramDefaultSide) ++ c :: rest) = some (e, c :: rest) := g3
     simp only [g3']
     cases p
     simp only at hd
